@@ -1063,8 +1063,23 @@ func c01Inequal(c *Ctx, m *matchModel) {
 	nret := 0
 	for _, b := range f.Blocks {
 		ret, ok := b.Instrs[len(b.Instrs)-1].(*ssa.Return)
-		if !ok || len(ret.Results) != 3 || ssau.IsNilConst(ret.Results[1]) {
+		if !ok {
 			continue
+		}
+		if len(ret.Results) != 3 || ssau.IsNilConst(ret.Results[1]) {
+			// the outcome handed back in a small record: the return counts when the record's list of binding sets
+			// can be non-nil
+			carries := false
+			if len(ret.Results) != 3 {
+				for _, r := range ret.Results {
+					if recordCarriesBindingList(r, m.inSet, 0) {
+						carries = true
+					}
+				}
+			}
+			if !carries {
+				continue
+			}
 		}
 		nret++
 		held := false
@@ -1921,4 +1936,104 @@ func rangeKey(l *flow.Loop) ssa.Value {
 		}
 	}
 	return nil
+}
+
+// isBindingList: a slice type that mentions Bindings ([]Bindings, [][]Bindings).
+func isBindingList(t types.Type) bool {
+	_, isSl := t.Underlying().(*types.Slice)
+	return isSl && strings.Contains(t.String(), "Bindings")
+}
+
+// recordCarriesBindingList: v is a struct value (or a pointer to one) with a field that is a list of binding sets,
+// and that field may be non-nil in v. The record is resolved through the local it was built in (field stores and
+// whole-value stores), phis and the results of helpers in the set; anything that cannot be resolved counts as
+// carrying a list.
+func recordCarriesBindingList(v ssa.Value, inSet map[*ssa.Function]bool, depth int) bool {
+	t := v.Type()
+	if pt, isP := t.Underlying().(*types.Pointer); isP {
+		t = pt.Elem()
+	}
+	st, isSt := t.Underlying().(*types.Struct)
+	if !isSt {
+		return false
+	}
+	fields := map[int]bool{}
+	for i := 0; i < st.NumFields(); i++ {
+		if isBindingList(st.Field(i).Type()) {
+			fields[i] = true
+		}
+	}
+	if len(fields) == 0 {
+		return false
+	}
+	if depth > 6 {
+		return true
+	}
+	var fromAlloc func(al *ssa.Alloc) bool
+	fromAlloc = func(al *ssa.Alloc) bool {
+		for _, r := range ssau.Referrers(al) {
+			switch x := r.(type) {
+			case *ssa.FieldAddr:
+				if !fields[x.Field] {
+					continue
+				}
+				for _, r2 := range ssau.Referrers(x) {
+					st, isStore := r2.(*ssa.Store)
+					if isStore && st.Addr == ssa.Value(x) {
+						if !ssau.IsNilConst(st.Val) {
+							return true
+						}
+						continue
+					}
+					if ld, isLd := r2.(*ssa.UnOp); isLd && ld.Op == token.MUL {
+						continue
+					}
+					return true // the field's address escapes
+				}
+			case *ssa.Store:
+				if x.Addr == ssa.Value(al) {
+					if recordCarriesBindingList(x.Val, inSet, depth+1) {
+						return true
+					}
+					continue
+				}
+				return true
+			case *ssa.UnOp, *ssa.DebugRef:
+			default:
+				return true
+			}
+		}
+		return false
+	}
+	switch x := v.(type) {
+	case *ssa.Const:
+		return false // the zero record
+	case *ssa.Alloc:
+		return fromAlloc(x)
+	case *ssa.UnOp:
+		if x.Op == token.MUL {
+			if al, isAl := x.X.(*ssa.Alloc); isAl {
+				return fromAlloc(al)
+			}
+		}
+	case *ssa.Phi:
+		for _, e := range x.Edges {
+			if recordCarriesBindingList(e, inSet, depth+1) {
+				return true
+			}
+		}
+		return false
+	case *ssa.Call:
+		if sc := x.Common().StaticCallee(); sc != nil && inSet[sc] && len(sc.Blocks) > 0 && sc.Signature.Results().Len() == 1 {
+			for _, b := range sc.Blocks {
+				if ret, ok := b.Instrs[len(b.Instrs)-1].(*ssa.Return); ok {
+					if recordCarriesBindingList(ret.Results[0], inSet, depth+1) {
+						return true
+					}
+				}
+			}
+			return false
+		}
+	}
+	return true
 }
